@@ -23,40 +23,49 @@ func c08Closure(args []string) *Result {
 	selftest := len(args) > 1 && args[1] == "selftest"
 	err := forEachEmitted(args[0], "E", func(js string) error {
 		var cs struct {
-			Blocks  []string `json:"blocks"`
-			Doc     []Tok    `json:"doc"`
-			Closure []Tok    `json:"closure"`
-			X       buildExp `json:"x"`
+			Blocks   []string `json:"blocks"`
+			Doc      []Tok    `json:"doc"`
+			Closures [][]Tok  `json:"closures"`
+			X        buildExp `json:"x"`
 		}
 		if err := json.Unmarshal([]byte(js), &cs); err != nil {
 			return err
 		}
-		res.Cases++
-		if selftest {
-			cs.Closure = cs.Closure[:len(cs.Closure)-1]
-		}
 		a := buildText(renderTokens(cs.Doc, false, canon).text)
-		rb := renderTokens(cs.Closure, false, canon)
-		b := buildText(rb.text)
+		var rb rendered
 		nExpl := 0
-		for _, t := range cs.Closure {
-			if t.E {
-				nExpl++
+		for ci, closure := range cs.Closures {
+			res.Cases++
+			if selftest {
+				closure = closure[:len(closure)-1]
 			}
-		}
-		if nExpl > 0 {
-			res.Nontrivial++
-		}
-		replay := map[string]any{"kind": "c08-closure", "blocks": cs.Blocks, "implicit": renderTokens(cs.Doc, false, canon).text, "explicit": rb.text}
-		switch {
-		case a.Res == "panic" || b.Res == "panic":
-			res.drift("panic: " + a.Msg + b.Msg)
-		case a.Res != b.Res:
-			res.mismatch("c08:closure-verdict", fmt.Sprintf("implicit form: %s (%s); explicit form: %s (%s) line %d", a.Res, firstLine(a.Msg), b.Res, firstLine(b.Msg), b.Line), replay)
-		case a.Res == "ok" && !bytes.Equal(a.JSON, b.JSON):
-			res.mismatch("c08:closure-catalog", "the explicit '( )' form gives a different catalog than the implicit form", replay)
-		case a.Res == "err" && classifyBuildErr(a.Msg) != classifyBuildErr(b.Msg):
-			res.mismatch("c08:closure-class", fmt.Sprintf("implicit: %s; explicit: %s", firstLine(a.Msg), firstLine(b.Msg)), replay)
+			rb = renderTokens(closure, false, canon)
+			b := buildText(rb.text)
+			nExpl = 0
+			for _, t := range closure {
+				if t.E {
+					nExpl++
+				}
+			}
+			if nExpl > 0 {
+				res.Nontrivial++
+			}
+			if ci == 0 {
+				res.count("all-explicit")
+			} else {
+				res.count("one-explicit")
+			}
+			replay := map[string]any{"kind": "c08-closure", "blocks": cs.Blocks, "implicit": renderTokens(cs.Doc, false, canon).text, "explicit": rb.text}
+			switch {
+			case a.Res == "panic" || b.Res == "panic":
+				res.drift("panic: " + a.Msg + b.Msg)
+			case a.Res != b.Res:
+				res.mismatch("c08:closure-verdict", fmt.Sprintf("implicit form: %s (%s); explicit form: %s (%s) line %d", a.Res, firstLine(a.Msg), b.Res, firstLine(b.Msg), b.Line), replay)
+			case a.Res == "ok" && !bytes.Equal(a.JSON, b.JSON):
+				res.mismatch("c08:closure-catalog", "the explicit '( )' form gives a different catalog than the implicit form", replay)
+			case a.Res == "err" && classifyBuildErr(a.Msg) != classifyBuildErr(b.Msg):
+				res.mismatch("c08:closure-class", fmt.Sprintf("implicit: %s; explicit: %s", firstLine(a.Msg), firstLine(b.Msg)), replay)
+			}
 		}
 		if len(res.Samples) < 2 && nExpl > 2 {
 			res.sample(map[string]any{"explicit": rb.text})
